@@ -31,6 +31,7 @@ type Input struct {
 	Pred   map[string]string // stage -> tag: the harness' reference model predicts unbounded recursion there
 	HTTP   *httpSc
 	Build  *buildCase
+	PT     *ptCase
 }
 
 type family struct {
@@ -53,6 +54,7 @@ func families() []family {
 		{"mut-ext", map[string]int{"quick": 6, "thorough": 8}, func(t string, y func(func() *Input)) { enumMut(kindExt, t, y) }},
 		{"http", map[string]int{"quick": 4, "thorough": 8}, enumHTTP},
 		{"build", map[string]int{"quick": 12, "thorough": 16}, enumBuild},
+		{"passthrough-merge", map[string]int{"quick": 2, "thorough": 2}, enumPassthrough},
 	}
 }
 
